@@ -21,7 +21,11 @@
   `Journal.end` *is* `Journal.start` (the same property object), so `journal.end = x` writes DTSTART.
   Outside the model: deleting a name that is no descriptor (AttributeError on a fresh instance),
   `del comp.start` (no deleter), arithmetic overflow beyond year 9999, microseconds.
+
+  The class attribute `exclusive` is NOT written here: it is read from `Gen.compClasses`, which
+  tools/extract.py regenerates from cal.py on every run (ICal/Gen/Cal.lean).
 -/
+import ICal.Gen.Cal
 namespace ICal.SE
 
 inductive Cls where
@@ -274,11 +278,25 @@ def target (c : Cls) : Acc → Option Key
   | .start => some .dtstart
   | .end => some (endKey c)
 
-/-- the class attribute `exclusive` -/
-def exclusive : Cls → List Key
-  | .event => [.dtend, .duration]
-  | .todo => [.due, .duration]
-  | .journal => []
+/-- the Python class name, as it appears in `Gen.compClasses` -/
+def Cls.pyName : Cls → Str
+  | .event => ['E', 'v', 'e', 'n', 't']
+  | .todo => ['T', 'o', 'd', 'o']
+  | .journal => ['J', 'o', 'u', 'r', 'n', 'a', 'l']
+
+/-- a property name of the `exclusive` tuple as one of the four modelled entries (other names do not touch them) -/
+def keyOfName (n : Str) : Option Key :=
+  if n = ['D', 'T', 'S', 'T', 'A', 'R', 'T'] then some .dtstart
+  else if n = ['D', 'T', 'E', 'N', 'D'] then some .dtend
+  else if n = ['D', 'U', 'E'] then some .due
+  else if n = ['D', 'U', 'R', 'A', 'T', 'I', 'O', 'N'] then some .duration
+  else none
+
+/-- the class attribute `exclusive`, taken from the table generated from cal.py -/
+def exclusive (c : Cls) : List Key :=
+  match Gen.compClasses.find? (fun cc => cc.cls == c.pyName) with
+  | some cc => cc.exclusive.filterMap keyOfName
+  | none => []
 
 /-- `if prop in self.exclusive: for other in self.exclusive: if other != prop: self.pop(other, None)` -/
 def popOthers (c : Cls) (k : Key) (s : St) : St :=
